@@ -185,6 +185,8 @@ def run(facts, tier):
     # ---- C14-6
     c06.r06_3(facts, res, "C14-6")
     res.functions_analysed = 12
+    import staleidx
+    staleidx.rule(facts, res, "C14-7", lambda f: f["crate"] in ("xml_info", "xml_dom"), floor=7)
     return res
 
 
